@@ -160,6 +160,8 @@ def annotation_program(pos, typ, obs):
         return None
     if tag == "own-class-box" and "class Box" not in template:
         return None
+    if tag == "name-of-function" and otag in ("hints", "signature"):
+        return None         # the text would contain the address of the function object
     holder = (ann_dict or "").rsplit(".__annotations__", 1)[0]
     if otag in ("hints", "signature"):
         if ann_dict == "__annotations__":
